@@ -144,6 +144,23 @@ class Session:
                     c.did_close(self.path(rel))
                     del self.open[rel]
                 self.discarded.discard(rel)
+        elif k == "open_bg":
+            # ["open_bg", trigger, g]: open `trigger`; while its background task runs - right after it has analysed g
+            # from disk - open g as well.  If the second didOpen arrives too late the step degenerates to two
+            # ordinary opens (never a false alarm, only a missed interleaving).
+            trig, g = st[1], st[2]
+            if trig in self.open or g in self.open or not self.exists(trig) or not self.exists(g) or trig == g:
+                ok = False
+            else:
+                tt, tg = self.disk_text(trig), self.disk_text(g)
+                u, v = c.open_nowait(self.path(trig), tt)
+                self.open[trig] = tt
+                seen = c.wait_report(g)
+                c.did_open(self.path(g), tg)
+                self.open[g] = tg
+                c.wait_published(u, v)
+                self.interleaved = getattr(self, "interleaved", 0) + (1 if seen and c.ends < c.tasks - 1 else 0)
+                c.quiesce()
         elif k == "wait":
             c.quiesce()
         else:
@@ -253,6 +270,7 @@ def run_case(binary, hist, workdir, timeout=180.0, probe_refs=True, cold=True):
             state["discarded"] = sorted(s.discarded)
             state["skipped"] = s.skipped
             state["applied"] = len(s.applied)
+            state["interleaved"] = getattr(s, "interleaved", 0)
             return s.observe(s.open, probe_refs=probe_refs)
         finally:
             state.setdefault("open", dict(s.open))
@@ -260,7 +278,7 @@ def run_case(binary, hist, workdir, timeout=180.0, probe_refs=True, cold=True):
             s.close()
 
     res["old"] = outcome(old)
-    res.update({k: state.get(k) for k in ("discarded", "skipped", "applied")})
+    res.update({k: state.get(k) for k in ("discarded", "skipped", "applied", "interleaved")})
     res["open"] = sorted(state.get("open", {}))
     opened = state.get("open", {})
     res["fresh"] = outcome(lambda: fresh_observe(binary, root, home, opened, timeout, probe_refs))
